@@ -174,6 +174,18 @@ func probeCtx(p *c10probe, hctx, callerCtx context.Context, wantMD metadata.MD, 
 		add("clientctx-missing", "ClientContext(handler ctx) is nil")
 	} else {
 		for _, k := range ctxChainKeys(callerCtx) {
+			if fmt.Sprintf("%T", k) == "metadata.mdOutgoingKey" {
+				// the channel may have added per-RPC credential metadata to what it passes on
+				callerOut, _ := metadata.FromOutgoingContext(callerCtx)
+				ccOut, _ := metadata.FromOutgoingContext(cc)
+				for mk, mv := range callerOut {
+					got := ccOut[mk]
+					if len(got) < len(mv) || strings.Join(got[:len(mv)], "\x00") != strings.Join(mv, "\x00") {
+						add("clientctx-wrong", fmt.Sprintf("ClientContext(...) lost outgoing metadata of the caller: key %q: got %q want (at least) %q", mk, got, mv))
+					}
+				}
+				continue
+			}
 			if !reflect.DeepEqual(cc.Value(k), callerCtx.Value(k)) {
 				add("clientctx-wrong", fmt.Sprintf("ClientContext(...).Value(%T) differs from the caller's", k))
 			}
@@ -226,9 +238,16 @@ func checkC10(e *core.Env) {
 			run := inner.Svc.NewRun(sc, "inproc")
 			wantMD := metadata.MD{}
 			for k, v := range sc.ReqMD {
-				wantMD[k] = v
+				wantMD[k] = append([]string(nil), v...)
 			}
 			wantMD[runKey] = []string{run.ID}
+			if r.Intn(4) == 0 {
+				// per-RPC credentials contribute metadata; the caller's own values must still all arrive
+				sc.ReqMD = mdMerge(sc.ReqMD, metadata.MD{"authorization": {"caller-token"}})
+				wantMD["authorization"] = []string{"caller-token", "cred-token"}
+				wantMD["cred-only"] = []string{"c"}
+				sc.ExtraOpts = []grpc.CallOption{grpc.PerRPCCredentials(&testCreds{md: map[string]string{"authorization": "cred-token", "cred-only": "c"}})}
+			}
 			run.OnHandler = func(hctx context.Context, rr *Run, st grpc.ServerStream) {
 				probeCtx(&probe, hctx, rr.Ctx, wantMD, kind.Method(), outerSTS, outerPeer)
 				// handler-side mutation of the metadata must not reach the caller
